@@ -4,6 +4,7 @@ import (
 	"bytes"
 	"encoding/json"
 	"fmt"
+	"math"
 	"os"
 	"os/exec"
 	"path/filepath"
@@ -12,9 +13,14 @@ import (
 	"strings"
 	"time"
 
+	"verifharness/mp4synth"
+
 	"github.com/stevenh/tracktools/pkg/convert"
+	"github.com/stevenh/tracktools/pkg/gopro/gpmf"
+	"github.com/stevenh/tracktools/pkg/gopro/gpmf/geo"
 	"github.com/stevenh/tracktools/pkg/laptimer"
 	"github.com/stevenh/tracktools/pkg/trackaddict"
+	"github.com/tidwall/geodesic"
 )
 
 func init() { runners["C20"] = runC20 }
@@ -35,7 +41,67 @@ type c20Input struct {
 	NoInput bool     `json:"noinput,omitempty"`
 	ToStdout bool    `json:"stdout,omitempty"`
 	FromStdin bool   `json:"stdin,omitempty"`
+	PreExisting bool `json:"preexisting,omitempty"` // the named output file already exists and is longer than the new output
+	Readings [][2]int32 `json:"readings,omitempty"` // gopro.laptimes: GPS5 readings (lat, lon in 1e-7 degrees) of a real mp4 given to the command
 }
+
+// laptimesFile: a minimal GoPro mp4 whose metadata track holds one payload DEVC/STRM{SCAL, GPS5}.
+func laptimesFile(readings [][2]int32) []byte {
+	var scal, gps []byte
+	for _, v := range []uint32{10000000, 10000000, 1000, 1000, 100} {
+		scal = append(scal, be32(v)...)
+	}
+	for i, rd := range readings {
+		gps = append(gps, be32(uint32(rd[0]))...)
+		gps = append(gps, be32(uint32(rd[1]))...)
+		gps = append(gps, be32(uint32(50000+i))...)
+		gps = append(gps, be32(uint32(20000))...)
+		gps = append(gps, be32(uint32(2100))...)
+	}
+	st := &knode{Key: "STRM", Typ: 0, Kids: []*knode{
+		{Key: "STNM", Typ: 'c', Size: 1, Count: 3, Data: []byte("GPS")},
+		{Key: "SCAL", Typ: 'l', Size: 4, Count: 5, Data: scal},
+		{Key: "GPS5", Typ: 'l', Size: 20, Count: len(readings), Data: gps}}}
+	payload := (&knode{Key: "DEVC", Typ: 0, Kids: []*knode{st}}).encode()
+	area := append([]byte{0xde, 0xad, 0xbe, 0xef}, payload...)
+	t := mp4synth.Tables{Offsets: []uint64{4}, NSamples: 1, Sizes: []uint32{uint32(len(payload))}, Stsc: [][2]uint32{{1, 1}}, Stts: [][2]uint32{{1, 1000}}, Timescale: 1000}
+	f, _, err := mp4synth.Build(area, t)
+	if err != nil {
+		panic(err)
+	}
+	return f
+}
+
+type llPair struct{ Lat, Lon float64 }
+
+// laptimesExpected: what the property says the command reports - exactly the readings within the
+// effective tolerance of the effective start line, in file order - computed with the library.
+func laptimesExpected(vals map[string]string, file []byte) ([]llPair, error) {
+	f := func(k string) float64 { v, _ := strconv.ParseFloat(vals[k], 64); return v }
+	lat, lon, brg, dist, tol := f("start.latitude"), f("start.longitude"), f("start.bearing"), f("start.distance"), f("tolerance")
+	var lat1, lon1, lat2, lon2 float64
+	geodesic.WGS84.Direct(lat, lon, brg+90, dist, &lat1, &lon1, nil)
+	geodesic.WGS84.Direct(lat, lon, brg-90, dist, &lat2, &lon2, nil)
+	p := geo.NewProcessor(geo.Tolerance(tol))
+	els, err := gpmf.NewDecoder().Decode(bytes.NewReader(file))
+	if err != nil {
+		return nil, err
+	}
+	var out []llPair
+	err = gpmf.Walk(els, func(e *gpmf.Element) error {
+		if d, ok := e.Data.(gpmf.GPSData); ok {
+			for _, v := range d {
+				if p.OnLine(v.Latitude, v.Longitude, lat1, lon1, lat2, lon2) {
+					out = append(out, llPair{v.Latitude, v.Longitude})
+				}
+			}
+		}
+		return nil
+	})
+	return out, err
+}
+
+var gpsLogRe = regexp.MustCompile(`gps=(\{[^}]*\})`)
 
 var c20Bin string
 
@@ -220,6 +286,10 @@ func addC20Case(ctx *Ctx, in c20Input) {
 	inPath := filepath.Join(dir, "in.csv")
 	_ = os.WriteFile(inPath, []byte(input), 0o600)
 	outPath := filepath.Join(dir, "out.xml")
+	if in.PreExisting {
+		_ = os.WriteFile(outPath, bytes.Repeat([]byte("stale bytes of an earlier conversion\n"), 8000), 0o644)
+	}
+	var mp4File []byte
 	var stdin *strings.Reader
 	switch in.Cmd {
 	case "convert":
@@ -236,7 +306,13 @@ func addC20Case(ctx *Ctx, in c20Input) {
 		}
 		args = append(args, ia, oa)
 	case "gopro.laptimes":
-		args = append(args, filepath.Join(dir, "missing.mp4"))
+		if len(in.Readings) > 0 {
+			mp4File = laptimesFile(in.Readings)
+			_ = os.WriteFile(filepath.Join(dir, "gps.mp4"), mp4File, 0o600)
+			args = append(args, filepath.Join(dir, "gps.mp4"))
+		} else {
+			args = append(args, filepath.Join(dir, "missing.mp4"))
+		}
 	}
 	cmd := exec.Command(c20Bin, args...)
 	cmd.Dir = dir
@@ -345,10 +421,33 @@ func addC20Case(ctx *Ctx, in c20Input) {
 			detail = "failure did not give a non-zero exit status and a message"
 		}
 	}
+	if in.Cmd == "gopro.laptimes" && mp4File != nil {
+		// the filter clause end to end: reported readings = readings within the effective tolerance of the effective line
+		want, werr := laptimesExpected(vals, mp4File)
+		var got []llPair
+		for _, m := range gpsLogRe.FindAllStringSubmatch(ansiRe.ReplaceAllString(stderr.String()+stdout.String(), ""), -1) {
+			var o struct{ Latitude, Longitude float64 }
+			if json.Unmarshal([]byte(m[1]), &o) == nil {
+				got = append(got, llPair{o.Latitude, o.Longitude})
+			}
+		}
+		same := werr == nil && len(got) == len(want)
+		for i := 0; same && i < len(got); i++ {
+			same = math.Abs(got[i].Lat-want[i].Lat) < 1e-9 && math.Abs(got[i].Lon-want[i].Lon) < 1e-9
+		}
+		if !same {
+			pipelineOK = false
+			detail = fmt.Sprintf("reported %d readings %v, within tolerance of the line are %d %v (err %v)", len(got), got, len(want), want, werr)
+		}
+		if (len(want) > 0) != (exit == 0) {
+			exitOK = false
+			detail += fmt.Sprintf(" exit=%d with %d matching readings", exit, len(want))
+		}
+	}
 	coq := fmt.Sprintf("(mkCase %s %s %s %s %s %s)", zlist(secTop), zlist(given), zlist(optTerms), CoqBool(traceOK), CoqBool(pipelineOK), CoqBool(exitOK))
 	b, _ := json.Marshal(in)
 	ctx.Add(Case{Coq: coq, Input: in, Obs: map[string]any{"exit": exit, "trace": traceOK, "pipeline_ok": pipelineOK, "exit_ok": exitOK, "detail": detail}, Key: string(b),
-		Tags: []string{"cmd:" + in.Cmd, fmt.Sprintf("exit:%d", exit), fmt.Sprintf("trace:%v", traceOK)}})
+		Tags: []string{"cmd:" + in.Cmd, fmt.Sprintf("exit:%d", exit), fmt.Sprintf("trace:%v", traceOK), fmt.Sprintf("preexisting-output:%v", in.PreExisting), fmt.Sprintf("real-mp4:%v", len(in.Readings) > 0)}})
 }
 
 func sp(s string) *string { return &s }
@@ -408,6 +507,7 @@ func runC20(ctx *Ctx) error {
 		in.NoInput = r.Chance(0.05)
 		in.ToStdout = r.Chance(0.3)
 		in.FromStdin = r.Chance(0.2) && !in.NoInput
+		in.PreExisting = !in.ToStdout && r.Chance(0.35)
 		addC20Case(ctx, in)
 	}
 	for i := 0; i < ctx.N(60, 1024); i++ {
@@ -416,6 +516,43 @@ func runC20(ctx *Ctx) error {
 			o := c20Opt{Key: k, Flag: "--" + strings.TrimPrefix(k, "start."), Kind: "float", Default: "0"}
 			genSource(r, &o, []string{"9", "0", "-1.5", "51.25"}, []string{"1", "2.5", "10", "0"})
 			in.Opts = append(in.Opts, o)
+		}
+		addC20Case(ctx, in)
+	}
+	// the filter clause end to end: a real mp4 with readings around the effective start line
+	for i := 0; i < ctx.N(50, 800); i++ {
+		in := c20Input{Cmd: "gopro.laptimes"}
+		eff := map[string]string{
+			"start.latitude":  fmt.Sprintf("%.6f", 51+float64(r.Intn(1000))/1e5),
+			"start.longitude": fmt.Sprintf("%.6f", -1-float64(r.Intn(1000))/1e5),
+			"start.bearing":   Pick(r, []string{"0", "10", "90", "200.5", "333"}),
+			"start.distance":  Pick(r, []string{"5", "10", "12.5"}),
+			"tolerance":       Pick(r, []string{"0", "0", "0.05", "1", "5"}),
+		}
+		decoy := map[string][]string{"start.latitude": {"10", "52.5"}, "start.longitude": {"3", "-1.5"}, "start.bearing": {"45.5", "270"}, "start.distance": {"1", "100"}, "tolerance": {"1", "10", "0.5"}}
+		for _, k := range []string{"start.latitude", "start.longitude", "start.bearing", "start.distance", "tolerance"} {
+			o := c20Opt{Key: k, Flag: "--" + strings.TrimPrefix(k, "start."), Kind: "float", Default: "0"}
+			switch r.Intn(3) {
+			case 0:
+				o.FlagVal = sp(eff[k])
+			case 1:
+				o.CfgVal = sp(eff[k])
+			default:
+				o.FlagVal, o.CfgVal = sp(eff[k]), sp(Pick(r, decoy[k])) // the flag wins over the file
+			}
+			in.Opts = append(in.Opts, o)
+		}
+		fv := func(k string) float64 { v, _ := strconv.ParseFloat(eff[k], 64); return v }
+		lat, lon, brg, dist, tol := fv("start.latitude"), fv("start.longitude"), fv("start.bearing"), fv("start.distance"), fv("tolerance")
+		for j := 0; j < 3+r.Intn(8); j++ {
+			along := (float64(r.Intn(200))/100 - 1) * dist * 1.2
+			side := Pick(r, []float64{0, 0.03, 0.07, 0.5, 0.9 * tol, 1.1 * tol, 2, 20, 111})
+			if r.Bool() {
+				side = -side
+			}
+			mlat, mlon := sphDest(lat, lon, brg+90, along/6378137)
+			plat, plon := sphDest(mlat, mlon, brg, side/6378137)
+			in.Readings = append(in.Readings, [2]int32{int32(math.Round(plat * 1e7)), int32(math.Round(plon * 1e7))})
 		}
 		addC20Case(ctx, in)
 	}
